@@ -202,7 +202,9 @@ def run(harness_names, tier):
                         result["undecided"].append("no result for harness " + h)
                     continue
                 r = parsed[h]
-                if r.get("covers") and r["covers"][0] != r["covers"][1]:
+                # an unsatisfied cover only means "vacuous" when nothing failed: after a failed assertion/panic the rest of
+                # the harness is unreachable and its covers are unsatisfied for that reason
+                if r["status"] != "FAILURE" and r.get("covers") and r["covers"][0] != r["covers"][1]:
                     r["status"] = "ERROR"
                     r["failure"] = "vacuity guard: only %d of %d kani::cover! satisfied" % tuple(r["covers"])
                 if r["status"] == "FAILURE":
